@@ -15,6 +15,7 @@ pub mod c15;
 pub mod c16;
 pub mod c17;
 pub mod c18;
+pub mod c19;
 
 use crate::Ctx;
 
@@ -37,6 +38,7 @@ pub fn run(ctx: &Ctx) -> i32 {
         "C16" => c16::run(ctx),
         "C17" => c17::run(ctx),
         "C18" => c18::run(ctx),
+        "C19" => c19::run(ctx),
         other => {
             eprintln!("MACHINERY-ERROR unknown property {}", other);
             2
@@ -63,6 +65,7 @@ pub fn replay(id: &str, payload: &serde_json::Value) -> bool {
         "C16" => c16::replay(payload),
         "C17" => c17::replay(payload),
         "C18" => c18::replay(payload),
+        "C19" => c19::replay(payload),
         other => {
             eprintln!("MACHINERY-ERROR no replay for {}", other);
             std::process::exit(2)
